@@ -65,6 +65,8 @@ def gen_world(rng, fmt=None, apdep=None, n_models=(1, 8), n_ap=(1, 5), n_wav=(5,
     w['nan_param'] = rng.random() < 0.1               # one parameter value of the package may be NaN (unknown)
     # per-file SEDs: "the order of the columns is not important" (docs), and optional component columns may be present
     w['sed_columns'] = rng.choice(['plain', 'plain', 'swapped', 'extra_first', 'extra_between'])
+    # a limb-brightened 'shell' model whose flux grows faster than aperture^2 (it counts as resolved in some bands / distances)
+    w['shell_model'] = rng.randrange(w['n_models']) if (w['apdep'] and rng.random() < 0.3) else None
     w['ext_n'] = rng.choice([3, 8, 40])
     # units in which the user states aperture radii and the distance range (any angle / length unit is legal)
     w['ap_unit'] = rng.choice(['arcsec', 'arcsec', 'arcmin', 'deg', 'mas'])
@@ -112,6 +114,12 @@ class World(object):
             1 + 0.5 * np.sin(np.log(self.wav)[None, None, :] * g.uniform(1, 4, (nm, 1, 1)) + g.uniform(0, 6, (nm, 1, 1))))
         val = shape * np.cumsum(g.uniform(0.2, 1, (nm, na, 1)), axis=1)
         unc = val * g.uniform(0.001, 0.05, val.shape)
+        if spec.get('shell_model') is not None and na > 1:
+            m_ = spec['shell_model'] % nm
+            grow = (self.aps / self.aps[-1]) ** g.uniform(2.5, 4.5)
+            band = g.uniform(0.3, 1.0, nw)                       # how shell-like the model is in each band
+            val[m_] = val[m_, -1:, :] * (grow[:, None] * band[None, :] + (1 - band[None, :]) * (self.aps / self.aps[-1])[:, None] ** 0.5)
+            unc[m_] = val[m_] * 0.02
         self.val = _round(val, dt)
         self.unc = _round(unc, dt)
         # per-model spectra (canonical ascending wavelength)
